@@ -256,12 +256,13 @@ def run(ctx):
             for i, ch in enumerate(A.chunks(use, K)):
                 if len(ch) < K:
                     ch = ch + use[: K - len(ch)]
-                ch2 = use[(i * K + 7) % len(use):][:K]
-                if len(ch2) < K:
-                    ch2 = ch2 + use[: K - len(ch2)]
+                # the second member of the homogeneous pair gets rows from the other end of TLC's grid: other masks than the first
+                ch2 = [use[(len(use) - 1 - i * K - j * 5) % len(use)] for j in range(K)]
                 groups = [A.dgroup([3], False, [c[1]["rows"][0] for c in ch]), A.dgroup([3], False, [c[1]["rows"][0] for c in ch2]),
                           A.dgroup([2], False, [c[0]["rows"][0] for c in ch])]
                 add(A.run_ippo(zoo, groups, training=training, mask_form=form))
+                if i % 4 == 0:
+                    add(A.run_ippo(zoo, groups, training=training, mask_form=form, variant=f"mask-{form}+infos-reversed"))
 
     ctx.extra["calls_recorded"] = len(traces)
     ctx.extra["share_encoders_used"] = dict(zoo.shared)
